@@ -65,6 +65,9 @@ Proof.
   induction a as [|o a IH]; simpl; intros b T; [reflexivity|]. rewrite IH, andb_assoc. reflexivity.
 Qed.
 
+Lemma valid_prefix : forall ops more, valid (ops ++ more) = true -> valid ops = true.
+Proof. intros ops more V. unfold valid in *. rewrite valid_from_app in V. apply andb_true_iff in V. apply V. Qed.
+
 Lemma after_leave : forall ops more w j uid, valid (ops ++ OLeave w uid :: more) = true ->
   lookup w (t_conn (truth_of ops)) = Some (j, uid) ->
   let st := fst (run (ops ++ [OLeave w uid])) in
